@@ -309,7 +309,14 @@ fn process_deposits_for_single_pool<C: ContentAddrStore>(
         .fold(0u128, |a, b| a.saturating_add(b));
     // main logic here
     let total_liqs = if let Some(mut pool_state) = state.pools.get(pool) {
+        let issued_before = pool_state.liqs;
         let liq = pool_state.deposit(total_lefts, total_rights);
+        // PoolState::deposit records the new liquidity with a saturating add but returns the full
+        // amount: if the record would stop at u128::MAX, handing out `liq` tokens would leave more
+        // tokens in circulation than the pool records. Such deposits are not settled.
+        if issued_before.checked_add(liq).is_none() {
+            return;
+        }
         state.pools.insert(*pool, pool_state);
         liq
     } else {
